@@ -319,6 +319,12 @@ func (d *TD) deliverToActors(t *pt.Table) {
 			mk(false, "observer")
 		}
 		mk(false, "observer2")
+		// an actor whose runner edits the view it was given: nobody else may see the edits
+		ta := actor.NewActor()
+		tad := actor.NewTableEngineAdapter(realEngine(d.te), t)
+		ta.SetAdapter(tad)
+		ta.SetRunner(&tamperRunner{})
+		d.obsAdapters = append(d.obsAdapters[:1], append([]interface{ UpdateTableState(*pt.Table) error }{tad}, d.obsAdapters[1:]...)...)
 	}
 	pre := d.rec.Project(nil, t)
 	d.deliveryPre = &pre
@@ -329,6 +335,7 @@ func (d *TD) deliverToActors(t *pt.Table) {
 	after := tableDigest(t)
 	a := mkArgs()
 	a.Kind = "delivered"
+	a.Note = t.Meta.CompetitionID
 	d.rec.Emit("actorsdone", a, "", nil, t, &pre, before == after)
 	d.deliveryPre = nil
 }
@@ -403,6 +410,26 @@ func (d *TD) playHandBots() string {
 	a.Note = "no hand opened after the gate"
 	d.rec.Emit("noopen", a, "", d.te, nil, nil, false)
 	return "noopen"
+}
+
+// tamperRunner scribbles over the table it is handed (its own copy, if the adapter does its job)
+type tamperRunner struct{}
+
+func (tr *tamperRunner) SetActor(a actor.Actor) {}
+func (tr *tamperRunner) UpdateTableState(t *pt.Table) error {
+	t.Meta.CompetitionID = "tampered"
+	if t.State != nil {
+		for _, p := range t.State.PlayerStates {
+			p.Bankroll = -777
+		}
+		if gs := t.State.GameState; gs != nil {
+			gs.Meta.Deck = nil
+			for _, p := range gs.Players {
+				p.HoleCards = nil
+			}
+		}
+	}
+	return nil
 }
 
 func (d *TD) bystanderDigest() string {
@@ -748,6 +775,7 @@ func (d *TD) exec(o Op) string {
 		return d.call("PlayerRedeemChips", &a, func() error { return te.PlayerRedeemChips(pt.JoinPlayer{PlayerID: o.ID, RedeemChips: o.Chips, Seat: -1}) })
 	case "leave":
 		a.IDs = append([]string{}, o.IDs...)
+		d.rec.Emit("call:PlayersLeave", a, "", d.te, nil, nil, false)
 		return d.call("PlayersLeave", &a, func() error { return te.PlayersLeave(o.IDs) })
 	case "update":
 		a.IDs = append([]string{}, o.IDs...)
@@ -756,6 +784,7 @@ func (d *TD) exec(o Op) string {
 			jp = append(jp, pt.JoinPlayer{PlayerID: j.ID, RedeemChips: j.Chips, Seat: j.Seat})
 			a.Joins = append(a.Joins, []interface{}{j.ID, j.Seat, j.Chips})
 		}
+		d.rec.Emit("call:UpdateTablePlayers", a, "", d.te, nil, nil, false)
 		return d.call("UpdateTablePlayers", &a, func() error { _, err := te.UpdateTablePlayers(jp, o.IDs); return err })
 	case "finish":
 		a.ID = o.ID
@@ -1332,6 +1361,15 @@ func (d *TD) Run() string {
 	}()
 	if d.mgr != nil && res == "ok" {
 		pt.VerifSetHook(realEngine(d.te), d.hook)
+		// one more bystander, created AFTER the driver's table with default callbacks, and used: nothing of it may
+		// reach the driver's table or its listeners
+		if bt, err := d.mgr.CreateTable(nil, nil, pt.TableSetting{TableID: fmt.Sprintf("late%d", sc.Seed), Meta: pt.TableMeta{CompetitionID: "c", Rule: "default", Mode: "ct",
+			MaxDuration: 1000000, TableMaxSeatCount: 4, TableMinPlayerCount: 2, MinChipUnit: 1, ActionTime: 10}, Blind: pt.TableBlindState{Level: 1, SB: 1, BB: 2}}); err == nil && bt != nil {
+			d.mgr.PlayerReserve(bt.ID, pt.JoinPlayer{PlayerID: "late1", RedeemChips: 5, Seat: 0})
+			d.mgr.PlayerJoin(bt.ID, "late1")
+			d.mgr.PauseTable(bt.ID)
+			d.bystanders = append(d.bystanders, bt.ID)
+		}
 	}
 	d.rec.Emit("ret:CreateTable", a, res, d.te, nil, nil, false)
 	if res != "ok" {
